@@ -496,11 +496,11 @@ Proof.
     set (d := doc_line sl) in *. set (ntoks := f_toks fn) in *. set (l := rl_list st) in *.
     rewrite Hdw. destruct (has_star ntoks) eqn:Ehs.
     + (* wildcard *)
-      destruct (doc_glob t ntoks) as [|ms] eqn:Eg; [right; left; reflexivity|].
-      destruct (glob_doc t ntoks ms Hfn (doc_name_accept _ Hdname) Eg) as (ms' & Hg & Hms).
       rewrite Hdw in Hw.
       destruct (d_adding d) eqn:Ead.
-      * destruct (x_source (d_x d)) eqn:Exs; [|right; left; reflexivity].
+      * destruct (doc_glob t ntoks) as [|ms] eqn:Eg; [right; left; reflexivity|].
+        destruct (glob_doc t ntoks ms Hfn (doc_name_accept _ Hdname) Eg) as (ms' & Hg & Hms).
+        destruct (x_source (d_x d)) eqn:Exs; [|right; left; reflexivity].
         destruct ms as [|m0 msr] eqn:Ems; [right; left; reflexivity|]. rewrite <- Ems in *.
         rewrite unescape_wild in Hrl by assumption.
         set (e := set_target e0 (unesc_star (e_target e0))) in Hrl.
@@ -519,14 +519,17 @@ Proof.
         destruct (d_type d =? 1).
         -- pose proof (expand_eqv t _ _ Hms x) as H2. tauto.
         -- pose proof (Hms x) as H2. tauto.
-      * specialize (Homit eq_refl). rewrite Homit in Hsrc.
+      * (* omit: the members of the list whose name matches *)
+        destruct (existsb odd_tok ntoks) eqn:Eodd; [right; left; reflexivity|].
+        specialize (Homit eq_refl). rewrite Homit in Hsrc.
         rewrite unescape_wild in Hrl by assumption.
         set (e := set_target e0 (unesc_star (e_target e0))) in Hrl.
-        assert (Hge : glob t (e_name e) = GOk ms') by (cbn [e e_name set_target]; now rewrite Hnm, Hdn).
-        destruct (wildcard_omit t l e ms' Hw Hge) as (l' & Hrem & Hl').
+        assert (Hge : gtokens (e_name e) = GPat (map tok_pat ntoks)).
+        { cbn [e e_name set_target]. rewrite Hnm, Hdn. now apply gtokens_base. }
+        destruct (wildcard_omit t l e _ Hw Hge) as (l' & Hrem & Hl').
         rewrite Hrem in Hrl. injection Hrl as <-. right; right; right.
         eexists; exists l'. split; [reflexivity|]. split; [reflexivity|].
-        intros x. rewrite Hl', fold_ndel_in. pose proof (Heqv x) as H1. pose proof (Hms x) as H2. tauto.
+        intros x. rewrite Hl', filter_In, negb_true_iff. pose proof (Heqv x) as H1. tauto.
     + (* a single name *)
       rewrite Hdw in Hw.
       rewrite unescape_plain in Hrl by assumption.
